@@ -9,6 +9,16 @@ SPEC = {
         {"name": "blocked-write", "pkg": PKG, "kind": "rapid", "run": "^TestVerifC14BlockedWrite$",
          "quick": {"checks": 300, "shards": 2, "timeout": 300},
          "thorough": {"checks": 3000, "shards": 8, "timeout": 1800}},
+        {"name": "interleaved", "pkg": PKG, "kind": "rapid", "run": "^TestVerifC14Interleaved$",
+         # one P: per-P caches (sync.Pool and the like) are shared by all connections deterministically
+         "quick": {"checks": 150, "shards": 2, "timeout": 300, "gomaxprocs": 1},
+         "thorough": {"checks": 1500, "shards": 8, "timeout": 1800, "gomaxprocs": 1}},
+        {"name": "interleaved-mp", "pkg": PKG, "kind": "rapid", "run": "^TestVerifC14Interleaved$",
+         "quick": {"checks": 100, "shards": 1, "timeout": 300},
+         "thorough": {"checks": 1000, "shards": 4, "timeout": 1800}},
+        {"name": "parallel", "pkg": PKG, "kind": "rapid", "run": "^TestVerifC14Parallel$",
+         "quick": {"checks": 40, "shards": 1, "timeout": 300, "race": True},
+         "thorough": {"checks": 400, "shards": 4, "timeout": 1800, "race": True}},
         {"name": "reject", "pkg": PKG, "kind": "plain", "run": "^TestVerifC14Reject$",
          "quick": {"shards": 2, "timeout": 300},
          "thorough": {"shards": 8, "timeout": 1500}},
